@@ -19,7 +19,7 @@ func init() { register("C18", c18) }
 // extracted from the current source, and discharged here with math/big.
 func c18(c *eng.Ctx, r *eng.Report) {
 	r.Level = "proof"
-	r.Explain = "strToBigInt is exact on every decimal string with at most 18 fractional and 78 integer digits, and strToBigInt(bigIntToStr(n,18),18) = n, by abstract interpretation of the function over {exact decimal, big.Float with relative error bound and direction}: the checker extracts prec, the rounding mode, the base and the pipeline ParseFloat → (*Float).Mul(target, target, base) → (*Float).Int from the SSA and discharges O1 prec >= bitlen(10^96)+3, O2 both roundings err away from zero (mode AwayFromZero inherited by Mul's receiver), O3 N_max·((1+2^(1-prec))^2-1) < 1 hence trunc(r) = N, O4 bigIntToStr/BigIntToStr are float-free string arithmetic emitting exactly `precision` fractional digits, O5 the ERC20/Rocket formatters are compositions of the two and every balance read/write in accountdb_tuntun.go passes them, O6 the value of a wrapped Ethereum transaction travels ConvertTx → TransferValue → decodeContractData as BigIntToStr(value) → StrToBigInt(string) with no intermediate rewriting and no floating-point type. " +
+	r.Explain = "strToBigInt is exact on every decimal string with at most 18 fractional and 78 integer digits, and strToBigInt(bigIntToStr(n,18),18) = n, by abstract interpretation of the function over {exact decimal, big.Float with relative error bound and direction}: the checker extracts prec, the rounding mode, the base and the pipeline ParseFloat → (*Float).Mul(target, target, base) → (*Float).Int from the SSA and discharges O1 prec >= bitlen(10^96)+3, O2 both roundings err away from zero (mode AwayFromZero inherited by Mul's receiver), O3 N_max·((1+2^(1-prec))^2-1) < 1 hence trunc(r) = N, O4 bigIntToStr/BigIntToStr are float-free string arithmetic emitting exactly `precision` fractional digits, O5 the ERC20/Rocket formatters are compositions of the two and every balance read/write in accountdb_tuntun.go passes them, O6 the value of a wrapped Ethereum transaction travels ConvertTx → TransferValue → decodeContractData as BigIntToStr(value) → StrToBigInt(string) with no intermediate rewriting and no floating-point type, and the assignment in ConvertTx is conditional on nothing but the value being non-nil (a creation, which has no recipient, carries its value like a call). " +
 		"O7 the converters consult no process-local state (no cache, package-variable store or shared object in their cone), so the result depends on the arguments only. " +
 		"Lemma (written out): for a decimal q = N/10^d with N < 10^96, r1 = round_away(q) satisfies |q| <= |r1| < |q|(1+e), e = 2^(1-prec); base = 10^d is exact (SetInt); r2 = round_away(r1·base) satisfies N <= |r2| < N(1+e)^2; O3 gives N(1+e)^2 - N < 1, so trunc(r2) = N. With a to-nearest mode r2 could fall below N and truncate to N-1, hence O2. " +
 		"Not decided: strings with more than 18 fractional digits, non-decimal syntaxes accepted by ParseFloat."
@@ -315,8 +315,21 @@ func c18EthValue(c *eng.Ctx, r *eng.Report) {
 					continue
 				}
 				call, isC := st.Val.(*ssa.Call)
-				if isC && eng.CallName(&call.Call) == "utility.BigIntToStr" && strings.Contains(eng.Desc(call.Call.Args[0]), ".Value(") {
+				guard := ""
+				for _, cd := range eng.CondsAt(st) {
+					m, isM := cd.Cmp()
+					if isM && m.Op == token.NEQ && eng.IsNilConst(m.Y) && strings.Contains(eng.Desc(m.X), ".Value(") {
+						continue // the value itself is present
+					}
+					guard = eng.Desc(cd.V)
+				}
+				if guard != "" {
+					ok = false
+					why = "TransferValue is only assigned under the condition " + guard + ", which is not about the value: a wrapped transaction for which it is false — a contract creation has no recipient — reaches the EVM with an empty transferValue, parsed as 0, so a payable constructor receives nothing of the value the sender signed"
+					r.Check(false, "O6", "ConvertTx:transfer-value-unconditional", c.Pos(st.Pos()), "", why)
+				} else if isC && eng.CallName(&call.Call) == "utility.BigIntToStr" && strings.Contains(eng.Desc(call.Call.Args[0]), ".Value(") {
 					ok = true
+					r.Pass("O6", "ConvertTx:transfer-value-unconditional", c.Pos(st.Pos()), "the assignment depends on nothing but the value being non-nil")
 				} else {
 					ok = false
 					why = "TransferValue is assigned " + eng.Desc(st.Val) + " instead of utility.BigIntToStr(txRaw.Value()) directly: the decimal string is rewritten on its way to the EVM"
